@@ -82,7 +82,7 @@ def run_broker(c):
                 executing[0] = None
         SimulatedBroker._execute_order = spy_exec
     def bsnap():
-        return [sec(broker.current_dt), num(broker.cash_balances[broker.base_currency]),
+        return [sec(broker.current_dt), num(broker.cash_balances.get(broker.base_currency, float('nan'))),
                 [[pid, pf_snap(pf),
                   [[by_obj.get(id(o), oid.get(o.order_id, -1)), o.asset, num(o.quantity)] for o in list(broker.open_orders[pid].queue)]]
                  for pid, pf in broker.portfolios.items()],
